@@ -18,7 +18,7 @@ func init() {
 	Register("C04", &Info{
 		Run:   runC04,
 		Quick: 4500, Thor: 500000,
-		Rule: "(30% of the parrot worlds build the hello explicitly, then build two other connections of the same parrot, then handshake) a world = one fingerprint (every predefined parrot by stratum, randomized seeds, fingerprinted copies, generated specs) observed over one real connection (hellos reassembled from the wire, incl. the hello after a HelloRetryRequest) plus 23 further ClientHellos built in the same world, plus one QUIC-style spec with GREASE transport parameters and a GREASE version-information entry; within-hello rules on every hello; freshness = >=2 distinct values among the 24 draws of each GREASE kind the fingerprint carries; non-trivial = the hello carries a GREASE value; distinct = (fingerprint, GREASE tuple of the wire hello)",
+		Rule: "(30% of the parrot worlds build the hello explicitly, then build two other connections of the same parrot, then handshake) a world = one fingerprint (every predefined parrot by stratum, randomized seeds, fingerprinted copies, generated specs) observed over one real connection (hellos reassembled from the wire, incl. the hello after a HelloRetryRequest) plus 23 further ClientHellos built in the same world, plus QUIC-style transport parameters with a GREASE parameter (IdOverride unset, small registered ids, reserved ids, arbitrary values) and a GREASE version-information entry; within-hello rules on every hello; freshness = >=2 distinct values among the 24 draws of each GREASE kind the fingerprint carries; non-trivial = the hello carries a GREASE value; distinct = (fingerprint, GREASE tuple of the wire hello)",
 		Assumptions: []string{"freshness threshold: 24 draws of a 16-valued GREASE nibble are all equal with probability 16^-23 for a uniform source; the world's random stream is a PRNG owned by the simulator, so a pass is a deterministic function of the seed"},
 		Real:        []string{"utls client from /repo", "utls or std server"},
 		Stub:        []string{"transport, clock, crypto/rand"},
@@ -189,6 +189,18 @@ func runC04(c *Ctx) {
 	// QUIC generators
 	for i := 0; i < 8; i++ {
 		gp := &tls.GREASETransportParameter{Length: uint16(ch.Pick(17, "gtp-len"))}
+		// IdOverride is honoured only when it is a reserved id (31*N+27); anything else - small
+		// registered ids in particular - must be replaced by a generated reserved one
+		override := uint64(0)
+		switch ch.Pick(4, "gtp-override") {
+		case 1:
+			override = uint64(ch.Pick(64, "gtp-override-small"))
+		case 2:
+			override = 27 + 31*uint64(ch.Pick(1000, "gtp-override-n"))
+		case 3:
+			override = ch.U64("gtp-override-any") >> uint(2+ch.Pick(60, "gtp-override-shift"))
+		}
+		gp.IdOverride = override
 		vi := &tls.VersionInformation{ChoosenVersion: tls.VERSION_1, AvailableVersions: []uint32{tls.VERSION_GREASE, tls.VERSION_1, tls.VERSION_GREASE}, LegacyID: ch.Bool(50, "legacy-vi")}
 		tp := tls.TransportParameters{gp, vi, &tls.GREASEQUICBit{}}
 		body := tp.Marshal()
@@ -198,7 +210,11 @@ func runC04(c *Ctx) {
 			return
 		}
 		if len(ids) != 3 || !wire.GREASEQUICParamID(ids[0]) {
-			c.Violate("quic-grease-id-not-31N+27", "ids %v", ids)
+			c.Violate("quic-grease-id-not-31N+27", "ids %v (IdOverride %d)", ids, override)
+			return
+		}
+		if override >= 27 && override%31 == 27 && override <= 0x3fffffffffffffff && ids[0] != override {
+			c.Violate("quic-grease-id-override-ignored", "IdOverride %d is a reserved id, the parameter carries %d", override, ids[0])
 			return
 		}
 		v := vals[1]
